@@ -26,7 +26,7 @@ func rndBig(rng *sim.Rng, max *big.Int) *big.Int {
 func driveFixture(rng *sim.Rng, bigMode bool) (*sim.Env, *fixture) {
 	t := big.NewInt
 	var cfg fxCfg
-	rew := []string{"urwda", "urwdb", "urwdc", "urwdd", "urwde", "urwdf", "ushared", "uexta", "uextb", "ucmdx"}
+	rew := []string{"urwda", "urwdb", "urwdc", "urwdd", "urwde", "urwdf", "ushared", "uexta", "uextb", "ucmdx", "uddd"}
 	if !bigMode {
 		decs := []*big.Int{t(1), t(1), t(10), t(100)}
 		dec := func() *big.Int { return decs[rng.Intn(len(decs))] }
@@ -112,6 +112,8 @@ func drive(lg *sim.Log, seed int64, idx, steps int) {
 			if nextOwn < len(ownDenoms) && rng.Intn(5) != 0 {
 				a.Denom = ownDenoms[nextOwn]
 				nextOwn++
+			} else if rng.Intn(4) == 0 {
+				a.Denom = "uddd" // a priced asset, also used by lend reward programs
 			} else {
 				a.Denom = "ushared"
 			}
